@@ -330,10 +330,91 @@ PROPS["C01"] = Prop(rule=_formula_rule % "", classify=_cls_formula, mode="close"
                     trusted=_dual_trusted + ["statrs erfc/erfc_inv ported to Lean Float for the driver; Φ, Φ⁻¹ abstract in the theorems",
                                              "glibc exp/log/pow on both sides"],
                     assumptions=_dual_assume + ["theorems hold where the formula is differentiable (Dom)"])
+_C02_LEAVES = {}
+
+
+def _plain_eval(toks, leaves):
+    """value of a prefix formula in plain doubles; returns (value, rest, ok) where ok is False as soon as an
+    intermediate result is non-finite or an operator is applied outside its differentiable domain"""
+    import math
+    from statistics import NormalDist
+    h, rest = toks[0], toks[1:]
+    if h[0] == "L":
+        v = leaves.get(h[1:])
+        return (v, rest, v is not None and math.isfinite(v))
+    if h[0] == "K":
+        v = f_of_hex(h[1:])
+        return (v, rest, math.isfinite(v))
+    try:
+        if h in ("+", "-", "*", "/", "%"):
+            a, rest, oka = _plain_eval(rest, leaves)
+            b, rest, okb = _plain_eval(rest, leaves)
+            if not (oka and okb):
+                return (float("nan"), rest, False)
+            if h in ("/", "%") and b == 0:
+                return (float("nan"), rest, False)
+            v = {"+": a + b, "-": a - b, "*": a * b, "/": a / b if h == "/" else 0.0,
+                 "%": math.fmod(a, b) if h == "%" else 0.0}[h]
+            return (v, rest, math.isfinite(v))
+        if h[0] == "p":
+            e = f_of_hex(h[1:])
+            a, rest, ok = _plain_eval(rest, leaves)
+            if not ok or (a < 0 and e != int(e)):
+                return (float("nan"), rest, False)
+            if a == 0:
+                # x^e is smooth at 0 exactly for e = 0, 1, 2, ... (this keeps the recorded finding
+                # Dual2::pow(x, 1.0) at 0 inside the oracle's domain)
+                return (0.0 if e > 0 else 1.0, rest, e == int(e) and e >= 0)
+            v = a ** e
+            # the true derivatives e a^(e-1), e (e-1) a^(e-2) must be representable too
+            return (v, rest, all(math.isfinite(x) for x in (v, a ** (e - 1), a ** (e - 2))))
+        a, rest, ok = _plain_eval(rest, leaves)
+        if not ok:
+            return (float("nan"), rest, False)
+        if h in ("n", "N"):
+            v = -a
+        elif h == "e":
+            v = math.exp(a)
+        elif h == "l":
+            if a <= 0:
+                return (float("nan"), rest, False)
+            v = math.log(a)
+        elif h == "c":
+            v = 0.5 * math.erfc(-a / math.sqrt(2.0))
+        elif h == "q":
+            if not (0.0 < a < 1.0):
+                return (float("nan"), rest, False)
+            v = NormalDist().inv_cdf(a)
+        elif h == "a":
+            if a == 0:
+                return (float("nan"), rest, False)
+            v = abs(a)
+        else:
+            return (float("nan"), rest, False)
+        return (v, rest, math.isfinite(v))
+    except (OverflowError, ValueError, ZeroDivisionError):
+        return (float("nan"), toks[1:], False)
+
+
 def _oracle_c02(t, impl):
     """model-free: the read-back Hessian is symmetric; the number converted down to first order has the
-    same value and gradient"""
+    same value and gradient; derivatives are finite whenever EVERY intermediate value of the formula is
+    (a formula that overflows on the way, e.g. x / exp(800), is outside the property's domain: the
+    plain-double re-evaluation below detects that and the line is then left to the model comparison)"""
+    if t[0] in ("dual2", "dual", "flt") and len(t) >= 3:
+        _C02_LEAVES[t[1]] = f_of_hex(t[2])
+        return None
+    if t[0] == "reset":
+        _C02_LEAVES.clear()
+        return None
     if t[0] != "evalgrad2" or not impl.startswith("E2 h"):
+        return None
+    try:
+        _, rest, inside = _plain_eval(t[1:], _C02_LEAVES)
+        inside = inside and not rest
+    except (IndexError, RecursionError):
+        inside = False
+    if not inside:
         return None
     parts = impl.split("|")
     if len(parts) != 3:
@@ -351,7 +432,7 @@ def _oracle_c02(t, impl):
     for i in range(k):
         for j in range(i):
             a, b = h[i * k + j], h[j * k + i]
-            if not (a == b or abs(a - b) <= 1e-9 * max(abs(a), abs(b)) + 1e-300):
+            if not (a == b or (a != a and b != b) or abs(a - b) <= 1e-9 * max(abs(a), abs(b)) + 1e-300):
                 return "Hessian not symmetric: H[%d][%d]=%r H[%d][%d]=%r" % (i, j, a, j, i, b)
     down = parts[2].split()
     if down[0] == "D":
